@@ -46,6 +46,9 @@ CLAIMED = {
  "C12": ("proof", "E1+E2", "Voronoi::finalize verified by Verus for any number of cells and faces (loop invariants; real text, de-sugared by stated mechanical rules): per-cell lists in face order, offsets = prefix sums, array = concatenation in cell order, every cell records its own index; theorem from the contract alone: the slice [offset, offset+count) lists face i iff the cell is its left or unshifted right cell; neighbour closure yields exactly the other side of listed non-boundary non-periodic faces, never the cell itself (E2, all labels)",
          "std pipelines `(0..n).map(|_| vec![]).collect()` and `into_iter().flatten().collect()` are assumed (external_body specs); iterator adapters of neighbour_ids/faces assumed; 'without duplicates' needs a geometric fact (not decided); a bounded replay over masked real builds is reported separately and never counted as proved",
          TECH + " — Verus on Voronoi::finalize / VoronoiCell::finalize / VoronoiFace accessors sliced from the real source + E2 contract on the neighbour_ids closure"),
+ "C20": ("proof", "E2", "the mechanisms the uniform-grid search rests on, each as a contract on the real function: Space::new builds ceil(width/max) cells per axis of width width/cdim and cell (i,j,k) spans anchor + (i,j,k)*c_width on every axis (any box shape); get_cid is the row-major index, None iff out of range; add_parts bins a particle into the cell that contains it; Cell::min_distance_squared and min_distance_to_face are lower bounds (pruning is sound)",
+         "A-REAL; the ring search itself (BinaryHeap bookkeeping, termination test, get_r_ring) and the bounding-sphere solvers (Welzl minimality, Epos6 containment) are NOT proved: they are covered only by bounded stand-ins on the real code (knn against brute force, spheres contain their points), labelled and never counted as proved; integer wrap-around not modelled",
+         TECH + " — E2 contracts on Space::new (prefix + cell literal), Space::get_cid, the add_parts closure, Cell::{min_distance_squared, min_distance_to_face} + bounded replay through verif hooks"),
 }
 NA = {
  "C01": "statement is about the composition (r-tree order -> security radius -> float clipping -> tetrahedral integration) agreeing with a brute-force Voronoi cell 'up to rounding'. No contract language available here can state and discharge that: Verus has no float semantics, the real-idealised VC generator (E2) covers straight-line code only (not the looping, branching builder over a dynamic vertex set), and Kani/CBMC does not finish symbolic execution of ConvexCell::build / from_convex_cell even on one concrete cube (28 min, measured). The mechanisms it rests on are under contract piecewise in C04, C05, C10, C16, C18; the composition itself is not decided by this family of technique",
@@ -53,7 +56,6 @@ NA = {
  "C09": "schedule independence of the rayon parallel loop: Kani has no thread support, Verus would need its own permission types on code that is rayon's (external) and the extraction subset excludes rayon; what holds (closures capture only shared immutable borrows, indexed collect preserves order) is Rust's type system plus rayon's documentation, not an obligation a verifier here can discharge",
  "C14": "exactness of the signed tetrahedral decomposition for every convex cell and 'base triangles lie in the face plane' are theorems of polytope geometry evaluated in floating point and depend on global convexity of the cell (C01); 'for every downstream implementation of the integral traits' quantifies over code that does not exist in /repo. No contract within reach states it",
  "C17": "best-first traversal order and completeness over rstar's tree needs a specification of rstar's node/envelope invariants and of BinaryHeap (external, unverified code) and the traversal is iterator/pattern-heavy code outside the extraction subset; CBMC on symbolic bulk-loaded trees with 27 shifted float distances is intractable. The two mechanisms that are per-function (shift mapping, image enumeration) are proved under C06/C03",
- "C20": "Space::knn's ring-pruning argument and Welzl minimality are algorithmic floating-point proofs over unbounded loops and recursion in auxiliary code; no contract could be brought within verifier reach in the time (float distances in Verus are uninterpreted; Kani cannot close the loops)",
 }
 def main():
     hooks = subprocess.run(["git", "-C", "/repo", "log", "--format=%h %s"], capture_output=True, text=True).stdout.splitlines()
